@@ -136,7 +136,7 @@ package wal
 //@ func (*Replayer).Replay
 //@   props C07 C13 C19 C10 C02
 //@   replay wal_model
-//@   bounded wal_model replay after a kill: all programs of <= 3 steps (thorough: also every fortieth program of 4 steps) over Append/AppendSync/Rotate x 4 record kinds (empty, small, larger than the size limit, larger than the write buffer) x 3 size limits; the directory as left after every step and with the newest file cut at 9 points (thorough: about 20 points) back to the last returned synchronous append; writer creation faults at each rotation
+//@   bounded wal_model replay after a kill: all programs of <= 3 steps (thorough: also every eightieth program of 4 steps) over Append/AppendSync/Rotate x 4 record kinds (empty, small, larger than the size limit, larger than the write buffer) x 3 size limits; the directory as left after every step and with the newest file cut at 9 points (thorough: about 12 points) back to the last returned synchronous append; writer creation faults at each rotation
 //@   requires r.walOptions != nil
 //@   call 0 of ReaderI.Open: assert [C19:reader-registered-for-close-before-it-is-opened] len(toClose) > 0 && toClose[len(toClose) - 1] == recv
 //@   exit [C19:every-registered-reader-closed] called(sort.Strings, 0) ==> forall j :: 0 <= j && j < len(toClose) ==> rdClosed(toClose[j])
